@@ -20,33 +20,53 @@ type psContract struct {
 	requires, inv, resultLen, resultVec, okFact, boolMeans string
 }
 
-const psClientInv = "{len:c.coord.Vec} = {v:c.config.Dimensionality} ∧ {len:c.origin.Vec} = {v:c.config.Dimensionality} ∧ 0 < {v:c.config.Dimensionality} ∧ 0 < {ptr:c.latencyFilterSamples} ∧ {len:c.adjustmentSamples} = {v:c.config.AdjustmentWindowSize} ∧ ({v:c.config.AdjustmentWindowSize} ≠ 0 → {v:c.adjustmentIndex} < {v:c.config.AdjustmentWindowSize})"
+const psClientInv = "{len:$r.coord.Vec} = {v:$r.config.Dimensionality} ∧ {len:$r.origin.Vec} = {v:$r.config.Dimensionality} ∧ 0 < {v:$r.config.Dimensionality} ∧ 0 < {ptr:$r.latencyFilterSamples} ∧ {len:$r.adjustmentSamples} = {v:$r.config.AdjustmentWindowSize} ∧ ({v:$r.config.AdjustmentWindowSize} ≠ 0 → {v:$r.adjustmentIndex} < {v:$r.config.AdjustmentWindowSize})"
 
 var psContracts = map[string]psContract{
-	"serf.upsertIntent":                      {requires: "0 < {ptr:intents}"},
-	"coordinate.diff":                        {requires: "{len:vec1} = {len:vec2}", resultLen: "{len:vec1}"},
-	"coordinate.add":                         {requires: "{len:vec1} = {len:vec2}", resultLen: "{len:vec1}"},
-	"coordinate.mul":                         {resultLen: "{len:vec}"},
-	"coordinate.unitVectorAt":                {requires: "{len:vec1} = {len:vec2} ∧ 0 < {len:vec1}", resultLen: "{len:vec1}"},
-	"coordinate.Coordinate.IsCompatibleWith": {boolMeans: "{len:c.Vec} = {len:other.Vec}"},
-	"coordinate.Coordinate.DistanceTo":       {requires: "{len:c.Vec} = {len:other.Vec}"},
-	"coordinate.Coordinate.rawDistanceTo":    {requires: "{len:c.Vec} = {len:other.Vec}"},
-	"coordinate.Coordinate.ApplyForce":       {requires: "{len:c.Vec} = {len:other.Vec} ∧ 0 < {len:c.Vec}", resultVec: "{len:c.Vec}"},
-	"coordinate.Coordinate.Clone":            {resultVec: "{len:c.Vec}"},
-	"coordinate.NewCoordinate":               {resultVec: "{v:config.Dimensionality}"},
-	"coordinate.Client.checkCoordinate":      {inv: psClientInv, okFact: "{len:c.coord.Vec} = {len:coord.Vec}"},
-	"coordinate.Client.latencyFilter":        {inv: psClientInv, requires: "0 < {v:c.config.LatencyFilterSize}"},
-	"coordinate.Client.updateVivaldi":        {inv: psClientInv, requires: "{len:c.coord.Vec} = {len:other.Vec}"},
-	"coordinate.Client.updateAdjustment":     {inv: psClientInv, requires: "{len:c.coord.Vec} = {len:other.Vec}"},
+	"serf.upsertIntent":                      {requires: "0 < {ptr:$0}"},
+	"coordinate.diff":                        {requires: "{len:$0} = {len:$1}", resultLen: "{len:$0}"},
+	"coordinate.add":                         {requires: "{len:$0} = {len:$1}", resultLen: "{len:$0}"},
+	"coordinate.mul":                         {resultLen: "{len:$0}"},
+	"coordinate.unitVectorAt":                {requires: "{len:$1} = {len:$2} ∧ 0 < {len:$1}", resultLen: "{len:$1}"},
+	"coordinate.Coordinate.IsCompatibleWith": {boolMeans: "{len:$r.Vec} = {len:$0.Vec}"},
+	"coordinate.Coordinate.DistanceTo":       {requires: "{len:$r.Vec} = {len:$0.Vec}"},
+	"coordinate.Coordinate.rawDistanceTo":    {requires: "{len:$r.Vec} = {len:$0.Vec}"},
+	"coordinate.Coordinate.ApplyForce":       {requires: "{len:$r.Vec} = {len:$2.Vec} ∧ 0 < {len:$r.Vec}", resultVec: "{len:$r.Vec}"},
+	"coordinate.Coordinate.Clone":            {resultVec: "{len:$r.Vec}"},
+	"coordinate.NewCoordinate":               {resultVec: "{v:$0.Dimensionality}"},
+	"coordinate.Client.checkCoordinate":      {inv: psClientInv, okFact: "{len:$r.coord.Vec} = {len:$0.Vec}"},
+	"coordinate.Client.latencyFilter":        {inv: psClientInv, requires: "0 < {v:$r.config.LatencyFilterSize}"},
+	"coordinate.Client.updateVivaldi":        {inv: psClientInv, requires: "{len:$r.coord.Vec} = {len:$0.Vec}"},
+	"coordinate.Client.updateAdjustment":     {inv: psClientInv, requires: "{len:$r.coord.Vec} = {len:$0.Vec}"},
 	"coordinate.Client.updateGravity":        {inv: psClientInv},
-	"coordinate.Client.Update":               {inv: psClientInv, requires: "0 < {v:c.config.LatencyFilterSize}", resultVec: "{v:c.config.Dimensionality}"},
-	"coordinate.Client.GetCoordinate":        {inv: psClientInv, resultVec: "{v:c.config.Dimensionality}"},
+	"coordinate.Client.Update":               {inv: psClientInv, requires: "0 < {v:$r.config.LatencyFilterSize}", resultVec: "{v:$r.config.Dimensionality}"},
+	"coordinate.Client.GetCoordinate":        {inv: psClientInv, resultVec: "{v:$r.config.Dimensionality}"},
 }
 
 var psBrace = regexp.MustCompile(`\{(len|ptr|v):([A-Za-z0-9_.]+)\}`)
 
+// positional replaces `$r` (receiver) and `$0`, `$1`, … (parameters) by the names the function declaration uses, so that the
+// contracts do not depend on them.
+func positional(c string, fd *ast.FuncDecl) string {
+	if fd == nil {
+		return c
+	}
+	if fd.Recv != nil && len(fd.Recv.List) == 1 && len(fd.Recv.List[0].Names) == 1 {
+		c = strings.ReplaceAll(c, "$r", fd.Recv.List[0].Names[0].Name)
+	}
+	i := 0
+	for _, fl := range fd.Type.Params.List {
+		for _, n := range fl.Names {
+			c = strings.ReplaceAll(c, "$"+itoa(i), n.Name)
+			i++
+		}
+	}
+	return c
+}
+
 // own renders a contract over the walked function's own current variables.
 func (w *psWalker) own(c string) string {
+	c = positional(c, w.fd)
 	return psBrace.ReplaceAllStringFunc(c, func(m string) string {
 		g := psBrace.FindStringSubmatch(m)
 		return w.lv(g[1], g[2])
@@ -55,6 +75,7 @@ func (w *psWalker) own(c string) string {
 
 // instantiate renders the callee's contract over the caller's variables.
 func (w *psWalker) instantiate(contract string, fd *ast.FuncDecl, c *ast.CallExpr) string {
+	contract = positional(contract, fd)
 	args := map[string]ast.Expr{}
 	if fd.Recv != nil && len(fd.Recv.List) == 1 && len(fd.Recv.List[0].Names) == 1 {
 		if sel, ok := c.Fun.(*ast.SelectorExpr); ok {
@@ -309,6 +330,7 @@ func itoa(n int) string {
 
 type psEffect struct {
 	ltV              string // strict upper bound of the integer result
+	indexOf          string // the result is -1 or an index below this length (slices.Index / IndexFunc)
 	lenV, ptrV, intV string // right-hand descriptions over the OLD versions ("" = unknown)
 	ptrPos           bool
 	appendGE         string // len_new ≥ this
@@ -379,6 +401,9 @@ func (w *psWalker) effect(r ast.Expr) psEffect {
 		if psExpr(x.Fun) == "rand.Intn" && len(x.Args) == 1 {
 			ef.ltV = w.term(x.Args[0], nil)
 		}
+		if f := psExpr(x.Fun); (f == "slices.IndexFunc" || f == "slices.Index") && len(x.Args) == 2 {
+			ef.indexOf = w.lenOf(x.Args[0])
+		}
 	}
 	switch kind {
 	case "slice", "string":
@@ -446,6 +471,11 @@ func (w *psWalker) apply(l ast.Expr, ef psEffect, define bool, declType ast.Expr
 	}
 	if ef.intV != "" {
 		w.add(w.lv("v", k)+" = "+ef.intV, "guard")
+	}
+	if ef.indexOf != "" {
+		w.indexLike[k] = true
+		w.facts = append(w.facts, psHyp{prop: w.lv("v", "neg."+k) + " = 1 ∨ " + w.lv("v", k) + " < " + ef.indexOf,
+			tag: "library: slices.Index/IndexFunc return -1 or an index of the slice"})
 	}
 	if ef.ltV != "" {
 		w.facts = append(w.facts, psHyp{prop: w.lv("v", k) + " < " + ef.ltV, tag: "library: rand.Intn(n) returns a value in [0, n)"})
